@@ -4,7 +4,9 @@ import Whv.Model.AlphWatch
 Driver family `alphwatch` (C08, C09).  Case lines are written by `harness/alephium/*_verif_test.go`:
 
 * `conf`, `dur`, `hconf`, `tinfo`, `hunconf`, `reobs` — one line per case (direct calls / one re-observation request);
-* `winit` / `wbatch` / `wtick` / `wheight` — one watcher life (all lines share the case id; the verdict is printed when the next case starts).
+* `winit` / `wbatch` / `wtick` / `wheight` / `wskip` — one watcher life (all lines share the case id; the verdict is printed when the next case starts);
+  `wrestart` (the loops are started again on the same `Watcher` value), `wti` (the token contracts answer differently from now on)
+  and `wreobs` (a re-observation request served by the life's own loop) belong to a life as well.
 
 Every line carries the fake node's answers (oracle tables and the request/answer log).  The driver replays the
 model (`Whv/Model/AlphWatch.lean`), compares full observable results, and evaluates the Spec — the words of the
@@ -80,7 +82,7 @@ def parseCall (s : String) : CallRes :=
   else .neither
 
 def parseShape (s : String) : TiAns :=
-  if s = "e" then .apiErr else if s = "-" then .results [] else .results ((s.splitOn "|").map parseCall)
+  if s = "e" || s = "e400" || s = "e404" then .apiErr else if s = "-" then .results [] else .results ((s.splitOn "|").map parseCall)
 
 def parseTi (s : String) : Option TiTable :=
   (splitList s ",").mapM fun e =>
@@ -179,6 +181,8 @@ structure St where
   reobsFwd : Nat := 0
   pages : Nat := 0
   grew : Nat := 0
+  restarts : Nat := 0
+  wreobs : Nat := 0
 
 /-- Every Spec clause is evaluated on the implementation's own results and the node's answers only (never on the
 model's state), so a Spec failure is recorded whether or not the tie broke earlier in the case. -/
@@ -297,7 +301,13 @@ def batchSpec (tbl : TiTable) (evs : List Event) (impl : List String) : Option S
     | none => false
   match bad, lost with
   | some e, _ => some s!"attest-mismatch-admitted event {e.id}: attested metadata differs from what the token contract reports"
-  | none, some e => some s!"wellformed-event-dropped event {e.id} (cl {(e.conv.map (·.cl)).getD 0}) converts and validates but was not delivered"
+  | none, some e =>
+    let what := match e.conv with
+      | some m => if isAttest m then
+                    s!": an attestation of token {toHex ((m.payload.drop 1).take 32)} by sender {toHex m.sender} that equals what the token contract reports in this tick"
+                  else ""
+      | none => ""
+    some s!"wellformed-event-dropped event {e.id} (cl {(e.conv.map (·.cl)).getD 0}) converts and validates but was not delivered{what}"
   | none, none => none
 
 def doHunconf (st : St) (id : String) (fs : List String) : St × List String :=
@@ -360,7 +370,15 @@ def reobsTrace (cfg : Cfg) (tbl : TiTable) (node : ReobsNode) (statusRaw : Strin
         | some h => l2 ++ [s!"main:{bh}>1", s!"height>{h}"]
   | _ => l0
 
-def doReobs (st : St) (id : String) (fs : List String) : St × List String :=
+/-- One re-observation request: Spec verdict, model/implementation difference, number of forwarded messages, and — `owed` —
+the first message the request owed to the signer but did not forward (evaluated by the caller where the statement demands it). -/
+structure ReobsEval where
+  spec : Option String
+  diff : Option String
+  nFwd : Nat
+  owed : Option String
+
+def evalReobs (fs : List String) : ReobsEval :=
   match kvB fs "mainnet", kvHex fs "bridge", kv fs "gov", kvNat fs "chain", kvHex fs "hash", kv fs "status", kv fs "evs",
         (kv fs "hdr").bind parseHdrTbl, (kv fs "main").bind parseMainTbl, (kv fs "ti").bind parseTi with
   | some mainnet, some bridge, some gov, some chain, some hash, some status, some evs, some hdrT, some mainT, some tbl =>
@@ -400,10 +418,33 @@ def doReobs (st : St) (id : String) (fs : List String) : St × List String :=
       let exp := reobsTrace cfg tbl node status chain hash.length tx
       let diff := if model ≠ impl then some s!"reobserve model={model} impl={impl}"
                   else if reqs ≠ exp then some s!"reobserve requests model={exp} impl={reqs}" else none
-      let (st, out) := single st id spec diff
-      ({ st with reobsFwd := st.reobsFwd + impl.length }, out)
-    | _, _, _, _, _, _ => single st id none (some "unparsable reobs line (2)")
-  | _, _, _, _, _, _, _, _, _, _ => single st id none (some "unparsable reobs line")
+      -- what the request owed: every node request answered, the transaction confirmed in a block reported canonical, each of
+      -- the governance contract's index-0 events in that block convertible; then every such event from the token bridge that
+      -- is final at the height answered and (attestation) equals what the token contract reports in this call.
+      let nodeErr := reqs.any fun r => r.endsWith ">e" && !r.startsWith "ti:"
+      let owed : Option String :=
+        if res ≠ "ok" || chain ≠ 255 || hash.length ≠ 32 || nodeErr then none else
+        match bhOk, evs, node.height with
+        | some bh, some evs, some hh =>
+          if o.main bh ≠ some true then none else
+          let mine := evs.filter fun e => e.idx == 0 && e.contract == gov && e.block == bh
+          if !(mine.all fun e => e.conv.isSome && (o.hdr e.block).isSome) then none else
+          let due := mine.filterMap fun e =>
+            match e.conv, o.hdr e.block with
+            | some m, some h =>
+              if m.sender == bridge && isEventConfirmed m h now hh mainnet && (!isAttest m || validateAttest node.ti m)
+              then some (showPub (toPub tx m h)) else none
+            | _, _ => none
+          due.find? fun p => count p impl < count p due
+        | _, _, _ => none
+      { spec := spec, diff := diff, nFwd := impl.length, owed := owed }
+    | _, _, _, _, _, _ => { spec := none, diff := some "unparsable reobs line (2)", nFwd := 0, owed := none }
+  | _, _, _, _, _, _, _, _, _, _ => { spec := none, diff := some "unparsable reobs line", nFwd := 0, owed := none }
+
+def doReobs (st : St) (id : String) (fs : List String) : St × List String :=
+  let r := evalReobs fs
+  let (st, out) := single st id r.spec r.diff
+  ({ st with reobsFwd := st.reobsFwd + r.nFwd }, out)
 
 /-! ## one watcher life -/
 
@@ -445,6 +486,26 @@ def parseUev (s : String) : Option Unconf :=
 
 def track (c : CaseSt) (us : List Unconf) : CaseSt := { c with tracked := c.tracked ++ us.map (·, true) }
 
+/-- log position of a delivered event the node never served (no page answer of the tick contains it) -/
+def unknownId : Nat := 1000000000
+
+/-- The fetch loop delivers events without their log position; the position is recovered from the page answers of the same tick
+(same block, transaction, event index and converted message; each served event is used once). -/
+def attachIds (served : List Event) (us : List Unconf) : List Unconf :=
+  (us.foldl (fun (acc : List Unconf × List Event) u =>
+      match acc.2.find? (fun e => e.block == u.ev.block && e.tx == u.ev.tx && e.idx == u.ev.idx && e.conv == some u.msg) with
+      | some e => (acc.1 ++ [{ u with ev := { u.ev with id := e.id } }], acc.2.erase e)
+      | none => (acc.1 ++ [{ u with ev := { u.ev with id := unknownId } }], acc.2)) ([], served)).1
+
+/-- Delivered events are tracked per position of the governance contract's event log: an event that is fetched and delivered
+again (by a later incarnation of the watcher, say) is still ONE fetched event — it justifies one forward, and it is owed from
+its latest delivery on. -/
+def trackFetched (c : CaseSt) (us : List Unconf) : CaseSt :=
+  us.foldl (fun c u =>
+    if u.ev.id ≠ unknownId && c.tracked.any (fun t => t.1.ev.id == u.ev.id) then
+      { c with tracked := c.tracked.map fun t => if t.1.ev.id == u.ev.id then (t.1, true) else t }
+    else { c with tracked := c.tracked ++ [(u, true)] }) c
+
 def doWbatch (st : St) (fs : List String) : St × List String :=
   let c := st.c
   match (kv fs "evs").bind parseEvs >>= toUnconfs, kvB fs "en" with
@@ -483,7 +544,9 @@ def doWtick (st : St) (fs : List String) : St × List String :=
     let nonTi := reqs.filter fun r => !r.startsWith "ti:"
     let pagesRaw := nonTi.filterMap parsePageReq
     let pages := attachEvents pagesRaw evs
-    let injected := reqs.any fun r => r.endsWith ">e"
+    -- a failing token-metadata call is not a fault of the event source: the statement demands that the watcher lives on
+    -- ("contracts whose metadata calls fail"), so it neither excuses an exit nor suspends what is owed
+    let injected := reqs.any fun r => r.endsWith ">e" && !r.startsWith "ti:"
     let countAns : Option (Option Int) :=
       match reqs with
       | r :: _ => if r = "count>e" then some none else if r = "count>404" then some (some 0)
@@ -541,11 +604,11 @@ def doWtick (st : St) (fs : List String) : St × List String :=
         else c
       let lastNext := (pagesRaw.filterMap (·.2)).getLast?
       -- what the implementation itself delivered is what the later Spec evaluation refers to
-      let implUs := ((implOut.getD []).filterMap parseUev)
+      let implUs := attachIds (pages.flatMap fun (_, p) => match p with | some pg => pg.events | none => []) ((implOut.getD []).filterMap parseUev)
       let c := if !exit && !implUs.isEmpty && !en then
                  c.addSpec "poller-not-enabled events were delivered to the event loop but the block poller is not enabled (no height tick will ever process them)"
                else c
-      let c := track { c with st := s', implFrom := if lastNext.isSome then lastNext else c.implFrom } implUs
+      let c := trackFetched { c with st := s', implFrom := if lastNext.isSome then lastNext else c.implFrom } implUs
       let grew : Bool := match cnt, pagesRaw.getLast? with | some cn, some (_, some nx) => decide (nx > cn) | _, _ => false
       ({ st with c := c, ticks := st.ticks + 1, pages := st.pages + pagesRaw.length, grew := st.grew + (if grew then 1 else 0) }, [])
   | _, _, _, _, _ => ({ st with c := c.addDiff "unparsable wtick line" }, [])
@@ -653,6 +716,58 @@ def doWskip (st : St) (fs : List String) : St × List String :=
     ({ st with c := c }, [])
   | _, _, _, _ => ({ st with c := c.addDiff "unparsable wskip line" }, [])
 
+/-- `wrestart`: the loops were stopped (node API error, or cancellation) and are started again on the same `Watcher` value.
+Everything forwarded so far stays on record (at most once is judged over all incarnations); what was pending is lost with the
+old incarnation — after a node API error the statement excuses that — so liveness is owed again only for what is delivered
+from now on.  Where the new incarnation resumes fetching is not prescribed by the statement (the pinned code starts at the
+current count); what it forwards is. -/
+def doWrestart (st : St) (fs : List String) : St × List String :=
+  let c := st.c
+  match kv fs "reqs", kvB fs "exit", kvB fs "en", kv fs "fwd" with
+  | some reqs, some exit, some en, some fwd =>
+    let pan := (kvB fs "panic").getD false
+    let late := splitList fwd ","
+    let c := if pan then c.addSpec "watcher-panic the fetch loop panicked on the first count request after a restart" else c
+    let c := if late.isEmpty then c else
+      { c.addDiff s!"messages were forwarded outside a height tick (seen at the restart): {late}" with fwdAll := c.fwdAll ++ late }
+    let cnt : Option (Option Int) :=
+      match splitList reqs "," with
+      | [r] => if r = "count>e" then some none else if r = "count>404" then some (some 0)
+               else if r.startsWith "count>" then (parseInt (r.drop 6).toString).map some else none
+      | _ => none
+    let c := { c with tracked := c.tracked.map (fun (t : Unconf × Bool) => (t.1, false)), implFrom := none }
+    match cnt with
+    | none =>
+      let c := if (splitList reqs ",").any (fun r => r.startsWith "count@") then c.addSpec s!"wrong-contract-polled {reqs}" else c.addDiff s!"unexpected requests at restart {reqs}"
+      ({ st with c := { c with st := restartW c.st none, faulted := true } }, [])
+    | some cn =>
+      let s' := restartW c.st cn
+      let c := { c with st := s', faulted := cn.isNone }
+      let c := if exit ≠ !s'.alive then c.addDiff s!"restart: model alive={s'.alive} impl exit={exit} reqs={reqs}"
+               else if s'.enabled ≠ en then c.addDiff s!"block poller flag across the restart: model={s'.enabled} impl={en}" else c
+      ({ st with c := c, restarts := st.restarts + 1 }, [])
+  | _, _, _, _ => ({ st with c := c.addDiff "unparsable wrestart line" }, [])
+
+/-- `wti`: the token contracts answer differently from now on (same process, same client). -/
+def doWti (st : St) (fs : List String) : St × List String :=
+  match (kv fs "ti").bind parseTi with
+  | some tbl => ({ st with c := { st.c with ti := tbl } }, [])
+  | none => ({ st with c := st.c.addDiff "unparsable wti line" }, [])
+
+/-- `wreobs`: a re-observation request served by the life's own `handleObsvRequest` loop.  Judged like a `reobs` case; in
+addition what the request owed must come out: these lives are the ones in which a foreign attestation-shaped event named the
+token id while its metadata calls failed — that must not make the token bridge's own message disappear later. -/
+def doWreobs (st : St) (fs : List String) : St × List String :=
+  let c := st.c
+  let r := evalReobs fs
+  let c := match r.spec with
+    | some s => c.addSpec s
+    | none => match r.owed with
+      | some p => c.addSpec s!"reobs-wellformed-event-dropped {p} is the token bridge's message, final, in a canonical block and (attestation) equal to what the token contract reports in this call; every node request succeeded, yet the re-observation request did not hand it to the signer"
+      | none => c
+  let c := match r.diff with | some d => c.addDiff d | none => c
+  ({ st with c := c, reobsFwd := st.reobsFwd + r.nFwd, wreobs := st.wreobs + 1 }, [])
+
 def step (st : St) (line : String) : St × List String :=
   let fs := fields line
   match fs with
@@ -660,13 +775,16 @@ def step (st : St) (line : String) : St × List String :=
   | op :: id :: rest =>
     if op = "end" then flush st
     else if op = "winit" then doWinit st id rest
-    else if op = "wbatch" || op = "wtick" || op = "wheight" || op = "wskip" then
+    else if op = "wbatch" || op = "wtick" || op = "wheight" || op = "wskip" || op = "wrestart" || op = "wti" || op = "wreobs" then
       if !st.c.active || st.c.id ≠ id then
         let (st, out) := flush st
         ({ st with n := st.n + 1 }, out ++ [s!"diff {id} {op} line outside a case"])
       else if op = "wbatch" then doWbatch st rest
       else if op = "wtick" then doWtick st rest
       else if op = "wskip" then doWskip st rest
+      else if op = "wrestart" then doWrestart st rest
+      else if op = "wti" then doWti st rest
+      else if op = "wreobs" then doWreobs st rest
       else doWheight st rest
     else
       let (st, out) := flush st
@@ -686,7 +804,8 @@ def fin (st : St) : List String :=
   let (st, out) := flush st
   out ++ [s!"stat cases {st.n}", s!"stat ok {st.nOk}", s!"stat poll_forwarded {st.fwd}", s!"stat reobs_forwarded {st.reobsFwd}",
           s!"stat fetch_ticks {st.ticks}", s!"stat page_requests {st.pages}", s!"stat ticks_with_log_growth {st.grew}",
-          s!"stat height_ticks {st.heights}"]
+          s!"stat height_ticks {st.heights}", s!"stat restarts {st.restarts}",
+          s!"stat reobs_inside_lives {st.wreobs}"]
 
 def run (h : IO.FS.Stream) : IO Unit := loop h ({} : St) step fin
 
